@@ -955,9 +955,20 @@ def wal_summary(rec):
     return out
 
 
+_PREV_ABORT = False
+
+
 def execute(scn, probes=None):
     """Run one scenario; returns the trace dict {'scn':..., 'lines': [...], 'abort': kind|None}."""
-    global REC
+    global REC, _PREV_ABORT
+    if _PREV_ABORT:
+        # the previous scenario in this worker was aborted (deadlock / livelock / horizon): its unfinished coroutines are finalised by the
+        # garbage collector at some later point and run their `finally` blocks then - make that happen now, before this scenario starts
+        import gc
+        REC = None
+        gc.collect()
+        gc.collect()
+        _PREV_ABORT = False
     reset_globals(scn.get('busorder', 'fwd'))
     for hd in scn['handlers']:
         hd.pop('_fn', None)
@@ -971,9 +982,13 @@ def execute(scn, probes=None):
     finally:
         REC = None
     if abort is not None:
+        _PREV_ABORT = True
         rec.lines.append({'a': 'End', 't': rec.lines[-1]['t'] if rec.lines else 0, 'tk': 'X', 'blocked': [], 'open': sorted(rec.open), 'wal': [],
                           'abort': abort, 'failed': [], 'running': [], 'rldone': [], 'crldone': [],
                           'evs': [], 'hist': [], 'q': [], 'reg': []})
     for hd in scn['handlers']:
         hd.pop('_fn', None)
+    end = rec.lines[-1] if rec.lines else {}
+    if end.get('blocked') or end.get('open'):
+        _PREV_ABORT = True       # suspended coroutines are left behind: finalise them before the next scenario of this process starts
     return {'scn': scn, 'lines': rec.lines, 'abort': abort, 'probe_missing': rec.probe_missing}
